@@ -465,6 +465,11 @@ def sections(ctx: Any) -> List[Ob]:
     for more in (True, False):
         for progress in (True, False):
             atoms_t = {'._has_more_to_add()': more, '.is_query()': True, '.multicast': True}
+            # (the remaining-entries test, whether a helper call or spelled out, is what the loop variable is assigned in the loop)
+            if isinstance(lt[0].ast, ast.Name):
+                for st_ in walk_local_ordered(pk0.node):
+                    if isinstance(st_, ast.Assign) and isinstance(st_.targets[0], ast.Name) and st_.targets[0].id == lt[0].ast.id and not (isinstance(st_.value, ast.Constant)):
+                        atoms_t[norm(st_.value)] = more
             if prog_defs:
                 atoms_t[norm(prog_defs[0].value)] = progress
 
